@@ -84,12 +84,20 @@ DUE_TIMING = {"timing_publish_next_hours": 24,
               "timing_publish_next_jitter_hours": 0,
               "timing_publish_hours_before_next": 100,
               "timing_roa_valid_weeks": 52,
-              "timing_roa_reissue_weeks_before": 100}
+              "timing_roa_reissue_weeks_before": 100,
+              "timing_aspa_valid_weeks": 52,
+              "timing_aspa_reissue_weeks_before": 100,
+              "timing_bgpsec_valid_weeks": 52,
+              "timing_bgpsec_reissue_weeks_before": 100}
 NORMAL_TIMING = {"timing_publish_next_hours": 24,
                  "timing_publish_next_jitter_hours": 0,
                  "timing_publish_hours_before_next": 8,
                  "timing_roa_valid_weeks": 52,
-                 "timing_roa_reissue_weeks_before": 4}
+                 "timing_roa_reissue_weeks_before": 4,
+                 "timing_aspa_valid_weeks": 52,
+                 "timing_aspa_reissue_weeks_before": 4,
+                 "timing_bgpsec_valid_weeks": 52,
+                 "timing_bgpsec_reissue_weeks_before": 4}
 
 
 SHORT_TIMING = dict(NORMAL_TIMING, timing_publish_next_hours=12)
@@ -165,8 +173,10 @@ def generate(chk, themes, num, depth, seed):
                 rnd = random.Random(seed * 7919 + len(acts) + i)
                 first = next((k for k, a in enumerate(acts)
                               if a.get("a") == "Settle"), 0) + 1
+                first = min(first, max(0, len(acts) - 4))
                 lo = rnd.randrange(first, max(first + 1, len(acts) - 4))
-                hi = rnd.randrange(lo + 2, len(acts))
+                lo = min(lo, max(0, len(acts) - 3))
+                hi = rnd.randrange(min(lo + 2, len(acts)), len(acts) + 1)
                 acts = (acts[:lo] + [{"a": "RestartDue"}] + acts[lo:hi]
                         + [{"a": "Pump"}, {"a": "RestartNormal"}] + acts[hi:])
             if theme == "tstag":
